@@ -57,9 +57,10 @@ Definition c03_wf (c : ctx) : bool :=
    reinterpret_cast<Message *>(new header / new trailer) (Minst::_gen::_make<T, R>; F8MetaCntx takes
    _mk_hdr / _mk_trl from them).  A received 35=header / 35=trailer makes factory create such an
    object and call Message::decode on it (msg->_header->... on a MessageBase that has no _header):
-   type confusion, observed as heap-buffer-overflow reads or runaway loops.  The codec model's message
-   table (c_msgs, from the metadata dump) lists real messages only, so the wrapper below adds the
-   lookup of the two pseudo rows in front of Codec.Decode.factory. *)
+   type confusion, observed as heap-buffer-overflow reads or runaway loops.  Repaired by /repo 408434c:
+   factory refuses the two texts with InvalidMessage like any unknown type.  The codec model's message
+   table (c_msgs, from the metadata dump) lists real messages only, i.e. Codec.Decode.factory IS the
+   repaired behaviour; c03_factory_orig puts the old lookup of the two pseudo rows in front of it. *)
 Definition pseudo_header : list N := [104; 101; 97; 100; 101; 114].          (* "header" *)
 Definition pseudo_trailer : list N := [116; 114; 97; 105; 108; 101; 114].    (* "trailer" *)
 Definition is_pseudo (mtype : list N) : bool := list_eqb mtype pseudo_header || list_eqb mtype pseudo_trailer.
@@ -70,8 +71,9 @@ Definition c03_pseudo (cp : caps) (bytes : list N) : bool :=
   | Ok (hlen, _, mtype) => negb (hlen =? 0) && is_pseudo (cstr mtype)
   | _ => false
   end.
-Definition c03_factory (c : ctx) (cp : caps) (bytes : list N) (no_chksum permissive : bool) : res message :=
+Definition c03_factory_orig (c : ctx) (cp : caps) (bytes : list N) (no_chksum permissive : bool) : res message :=
   if c03_pseudo cp bytes then OOB site_pseudo_entry else factory c cp bytes no_chksum permissive.
+Definition c03_factory : ctx -> caps -> list N -> bool -> bool -> res message := factory.
 
 (* ------------------------------------------------------------------ results *)
 Definition safe {A} (r : res A) : Prop := match r with Ok _ | Exc _ => True | _ => False end.
